@@ -842,6 +842,13 @@ pub fn run(args: &Args) {
         adversarial(&mut out, v, true);
     }
     adversarial(&mut out, VRef::Single(Bs(vec![255; LONG])), args.thorough);
+    // carry chains of namespace_upper_bound that must travel through the whole encoded prefix INTO the
+    // 2-byte length field: all-0xFF namespaces whose length has low byte 0xFF (encoded 00 ff ff.., 01 ff ff..),
+    // with the neighbouring lengths as controls
+    for len in [255usize, 511, 254, 256] {
+        adversarial(&mut out, VRef::Single(Bs(vec![255; len])), false);
+    }
+    adversarial(&mut out, VRef::Multi(vec![Bs(vec![255; 255]), bs(b"")]), false);
     // 3. exhaustive small families
     let base = vec![(bs(b"\x00\x01\xff"), bs(b"r")), (bs(b"\x00\x02"), bs(b"s")), (bs(b"\x01"), bs(b"t"))];
     if args.thorough {
